@@ -8,6 +8,7 @@
 #ifndef CPPCMS_IMPL_MULTIPART_PARSER_H
 #define CPPCMS_IMPL_MULTIPART_PARSER_H
 
+#include <booster/verif_hooks.h>
 #include <cppcms/defs.h>
 #include <booster/noncopyable.h>
 #include <booster/shared_ptr.h>
@@ -181,6 +182,7 @@ namespace cppcms {
 								if(c == this_boundary[position_])
 									position_++;
 								else if(position_ > 0) {
+									CPPCMS_VERIF_PROBE("multipart.partial_boundary_match_reemitted");
 									std::streamsize expected = position_;
 									std::streamsize s=out->sputn(this_boundary,position_);
 									position_ = 0;
